@@ -30,7 +30,7 @@ RULE = ("constructor kind (floats without/with reference, reference as datetime 
         "re-referencing of a series that has a reference; distinct by (constructor, data, history)")
 
 EPOCH = datetime(2000, 1, 1)
-NS_FINDING = "F21"          # id under which the nanosecond-resolution defect is to be registered in known_findings.json
+NS_FINDING = "F23"          # id under which the nanosecond-resolution defect is to be registered in known_findings.json
 BAD_KINDS = ("np64", "str", "float", "date", "int")
 
 
